@@ -114,7 +114,7 @@ pub fn case(ctx: &mut Ctx, gi: &GInfo, rule: usize, tape: &[u8]) -> CaseResult {
 pub fn run(world: &World, ctx: &mut Ctx) -> Option<Value> {
     ctx.ev.rule = RULE.to_string();
     let pairs = super::pairs(world, &[]);
-    let total = ctx.tier.pick(100_000u64, 2_000_000u64);
+    let total = ctx.tier.pick(250_000u64, 3_000_000u64);
     let n = super::per_pair(total, pairs.len(), 30, 20_000);
     ctx.ev.extra.insert("grammar_rule_pairs".into(), json!(pairs.len()));
     ctx.ev.extra.insert("cases_per_pair".into(), json!(n));
